@@ -172,41 +172,34 @@ public:
 	// fixpnt size adapter
 	template<unsigned src_nbits, unsigned src_rbits>
 	fixpnt& operator=(const fixpnt<src_nbits, src_rbits, arithmetic, bt>& a) noexcept {
-		// std::cout << typeid(a).name() << " goes into " << typeid(*this).name() << std::endl;
-		//		static_assert(src_nbits > nbits, "Source fixpnt is bigger than target: potential loss of precision"); 
-		// TODO: do we want prohibit this condition? To be consistent with native types we need to round automatically.
-		if constexpr (src_nbits <= nbits) {
-			_block = a.bits();
-			if constexpr (src_nbits < nbits) {
-				if (a.sign()) { // sign extend if necessary
-					for (unsigned i = src_nbits; i < nbits; ++i) setbit(i);
-				}
-			}
-#ifdef TODO
-			// round: <src_nbits, src_rbits> -> <nbits, rbits>
-			// we round on the difference between (src_rbits - rbits) fraction bits
-			// and modulo arithmetic, lop of the high order integer bits
-			if constexpr (src_rbits > rbits) {
-				auto rawbb = a.bits();
-				bool roundUp = rawbb.roundingMode(src_rbits - rbits);
-				rawbb >>= src_rbits - rbits;
-				if (roundUp) ++rawbb;
-				_block = rawbb;
-			}
-#endif
+		// align the radix points in a register wide enough for both formats, rounding to nearest-even
+		// when fraction bits are dropped, then apply the range rule of the arithmetic:
+		// Modulo keeps the low order nbits, Saturate clamps to [maxneg, maxpos]
+		constexpr unsigned upshift = (rbits > src_rbits ? rbits - src_rbits : 0u);
+		constexpr unsigned wide = (src_nbits > nbits ? src_nbits : nbits) + upshift + 1u;
+		blockbinary<wide, bt> raw(a.bits()); // sign extends
+		if constexpr (src_rbits > rbits) {
+			bool roundUp = raw.roundingMode(src_rbits - rbits);
+			raw >>= static_cast<int>(src_rbits - rbits);
+			if (roundUp) ++raw;
 		}
-		else {
-			// round: <src_nbits, src_rbits> -> <nbits, rbits>
-			// we round on the difference between (src_rbits - rbits) fraction bits
-			// and modulo arithmetic, lop of the high order integer bits
-			if constexpr (src_rbits > rbits) {
-				auto rawbb = a.bits();
-				bool roundUp = rawbb.roundingMode(src_rbits - rbits);
-				rawbb >>= src_rbits - rbits;
-				if (roundUp) ++rawbb;
-				_block = rawbb;
+		else if constexpr (rbits > src_rbits) {
+			raw <<= static_cast<int>(upshift);
+		}
+		if constexpr (arithmetic == Saturate) {
+			fixpnt<nbits, rbits, arithmetic, bt> maxpos(SpecificValue::maxpos), maxneg(SpecificValue::maxneg);
+			blockbinary<wide, bt> saturation = maxpos.bits();
+			if (raw >= saturation) {
+				_block = maxpos.bits();
+				return *this;
+			}
+			saturation = maxneg.bits();
+			if (raw <= saturation) {
+				_block = maxneg.bits();
+				return *this;
 			}
 		}
+		_block = raw; // select the lower nbits
 		return *this;
 	}
 
